@@ -1066,4 +1066,40 @@ theorem iterNext_overflow (bs : Bytes) (hall : ∀ b ∈ bs, b = 0x15) (hlen : I
     have hcur : current (0x15 :: tl) = .ok (0x15 :: tl) := by
       simp [current, hc, ValueType.isContainerEnd]
     simp only [iterNext, hcur, hn]
+/-! ### the writer entry points with a caller-side length: `stri` / `utf8i`, `str_cb` / `utf8_cb` -/
+
+/-- with the right length, `stri` / `str` writes exactly the leaf `Prim.mkStr data` -/
+theorem writeStri_str (t : Tag) (data : Bytes) :
+    writeStri false t data.length data = encode (.leaf t (Prim.mkStr data)) := by
+  simp [writeStri, encode, Prim.mkStr, Prim.vt, Prim.payload]
+
+theorem writeStri_utf8 (t : Tag) (data : Bytes) :
+    writeStri true t data.length data = encode (.leaf t (Prim.mkUtf8 data)) := by
+  simp [writeStri, encode, Prim.mkUtf8, Prim.vt, Prim.payload]
+
+theorem lenWidth_le_255 {n : Nat} (h : n ≤ 255) : lenWidth n = .w1 := by simp [lenWidth, h]
+theorem lenWidth_le_65535 {n : Nat} (h1 : ¬ n ≤ 255) (h2 : n ≤ 65535) : lenWidth n = .w2 := by
+  simp [lenWidth, h1, h2]
+
+/-- `str_cb` / `utf8_cb` with at most 65535 bytes from the callback: the shortest-form leaf -/
+theorem writeStrCb_str (t : Tag) (data : Bytes) (h : data.length ≤ 65535) :
+    writeStrCb false t data = .ok (encode (.leaf t (Prim.mkStr data))) := by
+  unfold writeStrCb
+  by_cases h1 : data.length ≤ 255
+  · simp [h1, encode, Prim.mkStr, Prim.vt, Prim.payload, lenWidth_le_255 h1, Width.bytes]
+  · simp [h1, h, encode, Prim.mkStr, Prim.vt, Prim.payload, lenWidth_le_65535 h1 h, Width.bytes]
+
+theorem writeStrCb_utf8 (t : Tag) (data : Bytes) (h : data.length ≤ 65535) :
+    writeStrCb true t data = .ok (encode (.leaf t (Prim.mkUtf8 data))) := by
+  unfold writeStrCb
+  by_cases h1 : data.length ≤ 255
+  · simp [h1, encode, Prim.mkUtf8, Prim.vt, Prim.payload, lenWidth_le_255 h1, Width.bytes]
+  · simp [h1, h, encode, Prim.mkUtf8, Prim.vt, Prim.payload, lenWidth_le_65535 h1 h, Width.bytes]
+
+/-- beyond 65535 bytes the callback writers panic (a literal `panic!`, not an error) -/
+theorem writeStrCb_panics (u : Bool) (t : Tag) (data : Bytes) (h : 65535 < data.length) :
+    writeStrCb u t data = .panic .explicit := by
+  unfold writeStrCb
+  rw [if_neg (by omega), if_neg (by omega)]
+
 end Tlv
